@@ -19,6 +19,8 @@ func init() {
 		fmt.Println("addchild in loops", ruleSharedChild(c, r, nil))
 		fmt.Println("nrbits pairs", ruleBitCountAgree(c, r))
 		ruleCaptureAfterReposition(c, r)
+		ruleCbcsPatterns(c, r)
+		ruleCodecStringVerbatim(c, r)
 		for _, o := range r.Obls {
 			if o.Status != Discharged || !strings.HasPrefix(o.Key, "L-SHAREDCHILD") {
 				fmt.Println(o.Status, o.Key, o.Pos, o.Detail)
@@ -733,3 +735,212 @@ func ruleCaptureAfterReposition(c *Ctx, r *Report) {
 }
 
 var _ = bits.Len
+
+// ---- T-PATTERN: cbcs protects video 1:9 and audio whole ------------------------------------------------------
+
+// ruleCbcsPatterns (T-PATTERN): among the TencBox values InitProtect builds (composite literals whose address reaches
+// InitProtectData.Tenc) there is a version-1 box (cbcs) with a non-zero DefaultCryptByteBlock (the 1:9 pattern of
+// video) and a version-1 box whose DefaultCryptByteBlock is zero (left out, stored as 0, or reset to 0 afterwards):
+// cbcs audio is protected whole, which the pattern 0:0 signals.
+func ruleCbcsPatterns(c *Ctx, r *Report) {
+	f := c.ssaFunc(r, "T-PATTERN", "mp4", "InitProtect")
+	if f == nil {
+		return
+	}
+	key := "mp4.InitProtect:cbcs-video-pattern-and-audio-whole"
+	type tenc struct {
+		version1       bool
+		cryptNonZero   bool
+		cryptZeroStore bool
+		skip           int64
+		pos            token.Pos
+	}
+	boxes := map[*ssa.Alloc]*tenc{}
+	for _, b := range f.Blocks {
+		for _, ins := range b.Instrs {
+			st, ok := ins.(*ssa.Store)
+			if !ok {
+				continue
+			}
+			fa, ok := st.Addr.(*ssa.FieldAddr)
+			if !ok {
+				continue
+			}
+			al, ok := fa.X.(*ssa.Alloc)
+			if !ok || typeName(al.Type()) != "TencBox" {
+				continue
+			}
+			fv := fieldVar(fa.X.Type(), fa.Field)
+			if fv == nil {
+				continue
+			}
+			t := boxes[al]
+			if t == nil {
+				t = &tenc{pos: al.Pos()}
+				boxes[al] = t
+			}
+			cs, isC := st.Val.(*ssa.Const)
+			var v int64 = -1
+			if isC && cs.Value != nil {
+				v, _ = constant.Int64Val(constant.ToInt(cs.Value))
+			}
+			switch fv.Name() {
+			case "Version":
+				if v == 1 {
+					t.version1 = true
+				}
+			case "DefaultCryptByteBlock":
+				if v == 0 {
+					t.cryptZeroStore = true
+				} else {
+					t.cryptNonZero = true
+				}
+			case "DefaultSkipByteBlock":
+				t.skip = v
+			}
+		}
+	}
+	video, audio := 0, 0
+	for _, t := range boxes {
+		if !t.version1 {
+			continue
+		}
+		if t.cryptNonZero {
+			video++
+		}
+		if !t.cryptNonZero || t.cryptZeroStore {
+			audio++
+		}
+	}
+	switch {
+	case len(boxes) == 0:
+		r.Undecided("T-PATTERN", key, c.Pos(f.Pos()), "no TencBox literal found in InitProtect")
+	case video == 0:
+		r.Bad("T-PATTERN", key, c.Pos(f.Pos()), "no version-1 tenc with a crypt:skip pattern is built: cbcs video would be signalled unpatterned")
+	case audio == 0:
+		r.Bad("T-PATTERN", key, c.Pos(f.Pos()), "every version-1 tenc InitProtect builds carries a non-zero crypt_byte_block: cbcs audio, which must be protected whole (pattern 0:0), is signalled and encrypted one block in ten")
+	default:
+		r.OK("T-PATTERN", key, c.Pos(f.Pos()), fmt.Sprintf("%d tenc literals: %d version-1 with a pattern, %d version-1 unpatterned", len(boxes), video, audio))
+	}
+}
+
+// ---- T-VERBATIM: the AVC codec string carries the three SPS bytes unmodified ----------------------------------
+
+// ruleCodecStringVerbatim (T-VERBATIM): the values avc.CodecString formats are, apart from conversions, loads of the
+// fields SPS.Profile, SPS.ProfileCompatibility and SPS.Level themselves (no arithmetic in between): the codecs
+// parameter carries profile_idc, the whole constraint/compatibility byte and level_idc.
+func ruleCodecStringVerbatim(c *Ctx, r *Report) {
+	f := c.ssaFunc(r, "T-VERBATIM", "avc", "CodecString")
+	if f == nil {
+		return
+	}
+	key := "avc.CodecString:profile-compatibility-level-verbatim"
+	want := map[string]bool{"Profile": false, "ProfileCompatibility": false, "Level": false}
+	for _, b := range f.Blocks {
+		for _, ins := range b.Instrs {
+			mi, ok := ins.(*ssa.MakeInterface)
+			if !ok {
+				continue
+			}
+			v := mi.X
+			for {
+				switch x := v.(type) {
+				case *ssa.Convert:
+					v = x.X
+					continue
+				case *ssa.ChangeType:
+					v = x.X
+					continue
+				}
+				break
+			}
+			if u, ok := v.(*ssa.UnOp); ok && u.Op == token.MUL {
+				if fa, ok := u.X.(*ssa.FieldAddr); ok && typeName(fa.X.Type()) == "SPS" {
+					if fv := fieldVar(fa.X.Type(), fa.Field); fv != nil {
+						if _, w := want[fv.Name()]; w {
+							want[fv.Name()] = true
+						}
+					}
+				}
+			}
+		}
+	}
+	var missing []string
+	for k, ok := range want {
+		if !ok {
+			missing = append(missing, "SPS."+k)
+		}
+	}
+	sort.Strings(missing)
+	if len(missing) > 0 {
+		r.Bad("T-VERBATIM", key, c.Pos(f.Pos()), "not formatted as loaded from the SPS: "+strings.Join(missing, ", ")+" (the codecs string must carry the byte verbatim; constraint_set4/5 and the reserved bits are part of the compatibility byte)")
+		return
+	}
+	r.OK("T-VERBATIM", key, c.Pos(f.Pos()), "profile, compatibility and level are formatted as loaded from the SPS")
+}
+
+// ---- O-CAP: sub-slices of the input handed out by the slice reader cannot grow into the input ---------------------
+
+// ruleReaderResultCapacity (O-CAP): a method of a reader type in package bits that returns a sub-slice of the slice it
+// reads from (FixedSliceReader.ReadBytes, RemainingBytes) limits the capacity of the result (full slice expression
+// s[a:b:b]). With the two-index form the result's capacity runs to the end of the caller's buffer, and an append by
+// the owner of a decoded box (FtypBox.AddCompatibleBrands, MdatBox.AddSampleData, …) writes into the input bytes that
+// follow the box — bytes other goroutines decoding the same shared buffer are reading. Returns the number of such
+// results.
+func ruleReaderResultCapacity(c *Ctx, r *Report, scope func(*ssa.Function) bool) int {
+	n := 0
+	for _, f := range libFuncs(c, scope) {
+		if f.Signature.Recv() == nil || f.Signature.Results().Len() != 1 {
+			continue
+		}
+		if sl, ok := f.Signature.Results().At(0).Type().Underlying().(*types.Slice); !ok || sl.Elem().String() != "byte" {
+			continue
+		}
+		// reader types only (the writer's Bytes() hands out its own buffer, not input)
+		if f.Pkg == nil || types.NewMethodSet(f.Signature.Recv().Type()).Lookup(f.Pkg.Pkg, "ReadUint8") == nil {
+			if !strings.Contains(strings.ToLower(typeName(f.Signature.Recv().Type())), "reader") {
+				continue
+			}
+		}
+		seen := map[ssa.Value]bool{}
+		var visit func(v ssa.Value)
+		visit = func(v ssa.Value) {
+			if seen[v] {
+				return
+			}
+			seen[v] = true
+			switch x := v.(type) {
+			case *ssa.Phi:
+				for _, e := range x.Edges {
+					visit(e)
+				}
+			case *ssa.Slice:
+				ld, ok := x.X.(*ssa.UnOp)
+				if !ok {
+					return
+				}
+				fa, ok := ld.X.(*ssa.FieldAddr)
+				if !ok || rootParam(fa.X, 0) != f.Params[0] {
+					return
+				}
+				fv := fieldVar(fa.X.Type(), fa.Field)
+				if fv == nil {
+					return
+				}
+				n++
+				key := fmt.Sprintf("%s:result-of-%s.%s", SSAFuncName(f), typeName(fa.X.Type()), fv.Name())
+				if x.Max == nil {
+					r.Bad("O-CAP", key, c.Pos(x.Pos()), "the sub-slice of the input handed to the caller keeps the capacity of the rest of the input: an append to it (FtypBox.AddCompatibleBrands, MdatBox.AddSampleData after DecodeFileSR) overwrites the input bytes after the box")
+				} else {
+					r.OK("O-CAP", key, c.Pos(x.Pos()), "the capacity of the returned sub-slice is limited (full slice expression)")
+				}
+			}
+		}
+		for _, b := range f.Blocks {
+			if ret, ok := b.Instrs[len(b.Instrs)-1].(*ssa.Return); ok && len(ret.Results) == 1 {
+				visit(ret.Results[0])
+			}
+		}
+	}
+	return n
+}
